@@ -1,6 +1,7 @@
 import NibabelModel.Model.C06
 import NibabelModel.Lemmas.C06_NpSpec
 import NibabelModel.Model.C06Py
+import NibabelModel.Model.C06_IO
 import NibabelModel.Generated.C06Funcs
 import Driver.Util
 namespace Nb.Drv.C06
@@ -25,10 +26,62 @@ def parseHeur? (s : String) : Option Heuristic :=
   else if s = "contig" then some (fun a _ _ => match a with | .int _ => .skip | .slice _ => .contiguous)
   else if s = "skip" then some (fun _ _ _ => .skip)
   else if s.startsWith "thr:" then (s.drop 4).toString.toNat?.map thresholdHeuristic
+  else if s = "dflt" then   -- the shipped default: threshold_heuristic with the SKIP_THRESH of the working tree
+    match Gen.C06F.SKIP_THRESH with
+    | .int k => some (thresholdHeuristic k.toNat)
+    | _ => none
   else none
 
 def showSegs (l : List Segment) : String :=
   "[" ++ ",".intercalate (l.map (fun s => toString s.offset ++ ":" ++ toString s.length)) ++ "]"
+
+
+/-! ### `hist`: histories of reads on the byte-level model (Model/C06_IO) -/
+
+/-- the harness's `make_store`: `off` header bytes, the elements `base … base+n-1` little-endian in `isz` bytes,
+    trailing bytes, cut / padded to `flen` -/
+def mkStore (shape : List Nat) (isz off flen base : Nat) : List Nat :=
+  let head := (List.range off).map (fun i => (37 * i + 11) % 251)
+  let body := (List.range shape.prod).flatMap
+    (fun q => (List.range isz).map (fun i => ((q + base) / 256 ^ i) % 256))
+  let buf := head ++ body
+  (buf ++ (List.range (flen - buf.length)).map (fun i => (91 * i + 7) % 253)).take flen
+
+def leValue (bs : List Nat) : Nat := bs.foldr (fun b acc => b + 256 * acc) 0
+
+structure HFile where
+  o : Order
+  isz : Nat
+  off : Nat
+  shape : List Nat
+
+def parseOrder? (s : String) : Option Order :=
+  if s = "C" then some .C else if s = "F" then some .F else none
+
+def parseHFiles : Nat → List String → Option (List (HFile × FileObj) × List String)
+  | 0, rest => some ([], rest)
+  | k + 1, ord :: isz :: off :: flen :: base :: shape :: rest =>
+      match parseOrder? ord, isz.toNat?, off.toNat?, flen.toNat?, base.toNat?, parseNatList? shape,
+            parseHFiles k rest with
+      | some o, some isz, some off, some flen, some base, some shape, some (fs, rest') =>
+          some ((⟨o, isz, off, shape⟩, ⟨mkStore shape isz off flen base, 0⟩) :: fs, rest')
+      | _, _, _, _, _, _, _ => none
+  | _, _ => none
+
+def parseHSteps (files : List HFile) : List String → Option (List Req)
+  | [] => some []
+  | j :: heur :: idx :: rest =>
+      match j.toNat?, parseHeur? heur, parseIdx? idx, parseHSteps files rest with
+      | some j, some h, some idx, some rs =>
+          match files[j]? with
+          | some F => some (⟨j, h, idx, F.shape, F.isz, F.off, F.o⟩ :: rs)
+          | none => none
+      | _, _, _, _ => none
+  | _ => none
+
+def showRead : ReadResult → String
+  | .ok (sh, data) => "ok " ++ showList sh ++ " " ++ showList (data.map leValue)
+  | .error _ => "ERR"
 
 def handle : List String → String
   | ["fs", ord, isz, off, flen, heur, shape, idx] =>
@@ -183,6 +236,18 @@ def handle : List String → String
       match parseVL? a, parseVL? b, parseV? c, parseV? d with
       | some a, some b, some c, some d => showM (Gen.C06F.slicers2segments a b c d)
       | _, _, _, _ => "bad-op"
+  | "hist" :: nf :: rest =>
+      match nf.toNat? with
+      | some nf =>
+          match parseHFiles nf rest with
+          | some (fs, rest') =>
+              match parseHSteps (fs.map (·.1)) rest' with
+              | some reqs =>
+                  if reqs.isEmpty then "bad-op"
+                  else " | ".intercalate ((runHistory (fs.map (·.2)) reqs).map showRead)
+              | none => "bad-op"
+          | none => "bad-op"
+      | none => "bad-op"
   | _ => "bad-op"
 
 end Nb.Drv.C06
